@@ -158,7 +158,8 @@ def theorem_names(vpath):
 def ocaml_build(name, extracted, main):
     """Concatenate extracted code + io.ml + main and compile (cached by content hash)."""
     src = ''
-    for p in (os.path.join(BUILD, extracted + '.ml'), os.path.join(OCAML, 'io.ml'), os.path.join(OCAML, main)):
+    mains = [main] if isinstance(main, str) else list(main)
+    for p in [os.path.join(BUILD, extracted + '.ml'), os.path.join(OCAML, 'io.ml')] + [os.path.join(OCAML, m) for m in mains]:
         if not os.path.exists(p):
             return None, 'missing ' + p
         with open(p) as fh:
